@@ -258,13 +258,20 @@ func (r *c9Runner) evalClient(c *c9ClientRun, segFirst map[*c9AU]*c9AU) {
 		fail("Fxx-target-duration-zero:", "every listed segment is shorter than 0.5 s: the muxer announces EXT-X-TARGETDURATION:0, which the library's own playlist reader rejects (\"TARGETDURATION not set\")")
 		return
 	case "err:ts-init":
-		lacks := false
+		lacks, zero := false, false
 		for _, s := range c.served {
 			if s.empty {
 				lacks = true
 			}
+			if s.zero {
+				zero = true
+			}
 		}
-		if lacks {
+		if zero && !lacks {
+			// timing, same class as `gone`: the RAM storage answered 200 with an empty body for a segment that left the
+			// window between lookup and read; the MPEG-TS reader cannot initialise on it and the client ends with an
+			// error (no unit is skipped silently)
+		} else if lacks {
 			fail("F15-empty-rendition-part:", "(MPEG-TS form) client fatal \"astits: no more packets\": the first segment it downloaded carries no data of one of the tracks of its PMT")
 		} else {
 			fail("", "client ended with %s although every served segment carried data of every track", c.end)
